@@ -470,6 +470,8 @@ def effects_for(env, by_name, cd, cls, mname, pat, kind, adv):
     target_cd, mode = None, None
     if mname == "__init__":
         target_cd, mode = cd, "init"
+    elif mname == "update" and not isinstance(pat, tuple):
+        target_cd, mode = cd, "top"
     else:
         attr = pat[1] if isinstance(pat, tuple) else mname.split("_", 1)[1] if "_" in mname else None
         a = next((x for x in cd["attrs"] if x["name"] == attr), None)
@@ -494,7 +496,15 @@ def effects_for(env, by_name, cd, cls, mname, pat, kind, adv):
     counter = [2000]
     is_transform = mname.startswith("transform_")
     attr_names = {a["name"] for a in all_attrs(target_cd)}
-    for seq, ks in enumerate(keyword_sets(target_cd, adv_kw, catch_all and not is_transform, must)):
+    sets = keyword_sets(target_cd, adv_kw, catch_all and not is_transform and mode != "top", [] if mode == "top" else must)
+    plans = [(ks, False) for ks in sets]
+    if mode in ("list_nested", "dict_nested", "klist") or (mode == "attr" and mname.startswith(("with_", "update_"))):
+        # the value itself given as a dictionary of constructor arguments, keywords on top of it
+        plans += [(ks, True) for ks in sets[:5]]
+    if mode == "top":
+        # update(<replacement instance>, attr=...): the keywords apply to the replacement
+        plans += [(ks, True) for ks in sets[:5]]
+    for seq, (ks, alt) in enumerate(plans):
         kw = {}
         for k in ks:
             counter[0] += 1
@@ -505,6 +515,17 @@ def effects_for(env, by_name, cd, cls, mname, pat, kind, adv):
                 continue
         # nested attribute helpers: value not set yet (constructor path) / already set, copy / already set, in place
         path = 0 if mode != "attr" else (1 + seq % 2 if is_transform else seq % 3)
+        if alt and mode != "top":
+            path = 0
+        if mode == "top":
+            path = 1  # an existing object is updated: only named attributes are judged
+        dict_value = {}
+        if alt and mode != "top":
+            spare = [x[0] for x in tn[0] if x[1] and x[0] not in kw and x[0] != tkey and x[0] != tn[1]
+                     and not x[0].startswith("_") and typed_value(target_cd, x[0], 1) is not None][:1]
+            for k in spare:
+                counter[0] += 1
+                dict_value[k] = typed_value(target_cd, k, counter[0])
         if path:
             # an existing nested value is updated, not constructed: only keywords naming init-enabled
             # attributes are judged (what a **overflow keyword means for an existing object is not documented)
@@ -516,6 +537,14 @@ def effects_for(env, by_name, cd, cls, mname, pat, kind, adv):
         try:
             if mode == "init":
                 target = cls(**kw)
+            elif mode == "top":
+                recv = make_instance(cls, cd)
+                call_kw = dict(kw)
+                if not alt and seq % 2 and not cd.get("frozen"):
+                    call_kw["_inplace"] = True
+                target = recv.update(make_instance(cls, cd), **call_kw) if alt else recv.update(**call_kw)
+                if alt and target is recv:
+                    raise AssertionError("update(<replacement>) returned the receiver")
             else:
                 recv = make_instance(cls, cd)
                 if mode == "attr":
@@ -528,16 +557,17 @@ def effects_for(env, by_name, cd, cls, mname, pat, kind, adv):
                             call_kw["_inplace"] = True
                     if is_transform:
                         call_kw = {k: ((lambda old, v=v: v) if k in kw else v) for k, v in call_kw.items()}
-                    target = getattr(getattr(recv, mname)(**call_kw), aname)
+                    target = getattr(getattr(recv, mname)(*([dict(dict_value)] if alt else []), **call_kw), aname)
                 elif mode == "dict_nested":
-                    coll = getattr(getattr(recv, mname)("key", **kw), pat[1])
+                    coll = getattr(getattr(recv, mname)("key", *([dict(dict_value)] if alt else []), **kw), pat[1])
                     target = coll["key"]
                 else:
-                    coll = getattr(getattr(recv, mname)(**kw), pat[1])
+                    coll = getattr(getattr(recv, mname)(*([dict(dict_value)] if alt else []), **kw), pat[1])
                     target = list(coll)[-1]
             d = object.__getattribute__(target, "__dict__")
             ov = d.get(tn[1]) if tn[1] else None
-            obs = [(k, enc_obs(v), enc_obs(d.get(k)), enc_obs(ov.get(k)) if isinstance(ov, dict) else None) for k, v in kw.items()]
+            obs = [(k, enc_obs(v), enc_obs(d.get(k)), enc_obs(ov.get(k)) if isinstance(ov, dict) else None)
+                   for k, v in list(kw.items()) + list(dict_value.items())]
         except BaseException as e:
             if isinstance(e, (KeyboardInterrupt, SystemExit)):
                 raise
